@@ -26,6 +26,9 @@ tvars == <<vars, l, ended, f2n>>
 TInit == Init /\ l = 2 /\ ended = FALSE /\ f2n = 0 /\ TLCSet(1, 0)
 
 Rec == Tr[l]
+\* memory-order tokens are compared for information only: on this machine (x86-64 TSO) a different memory_order
+\* argument cannot change any behaviour the properties speak about (DESIGN 5.6), so a mismatch is DRIFT, never a rejection
+MoChk(m) == IF Rec.mo = m THEN TRUE ELSE PrintT(<<"MO_DRIFT", m, Rec.mo>>)
 Ev(e) == l <= Len(Tr) /\ Rec.e = e
 Consume == l' = l + 1 /\ UNCHANGED <<ip, ended, f2n>>
 Same == UNCHANGED vars
@@ -72,29 +75,29 @@ TNotifyRan  == Ev("NotifyRan") /\ Consume /\ NotifyRan(Rec.n)
 
 (* ---- dg_state / dg_bits / dg_gen ---- *)
 TSub == /\ Ev("Sub") /\ Consume /\ Enter(Rec.t, Rec.tok, Rec.async = 1)
-        /\ Low(st) = LowOld /\ Low(st') = LowNew /\ Rec.mo = "acquire"
+        /\ Low(st) = LowOld /\ Low(st') = LowNew /\ MoChk("acquire")
 TAdd == /\ Ev("Add") /\ Consume /\ Leave(Rec.t, Rec.tok)
-        /\ st = OldW /\ Rec.mo = "release"
+        /\ st = OldW /\ MoChk("release")
         \* the fetch-add's result (the CAS of the clearing loop is a separate record)
         /\ [gen |-> IF st.nv = VMOD - 1 THEN st.gen + 1 ELSE st.gen, nv |-> (st.nv + 1) % VMOD,
             hn |-> st.hn, hw |-> st.hw] = NewW
-TLoadS == /\ Ev("LoadS") /\ Consume /\ st = OldW /\ Rec.mo = "relaxed"
+TLoadS == /\ Ev("LoadS") /\ Consume /\ st = OldW /\ MoChk("relaxed")
           /\ \/ NotifyLoad(Rec.t)
              \/ WaitLoad(Rec.t)
 TCas == /\ Ev("Cas") /\ Consume /\ st = OldW
         /\ IF Rec.ok = 1
              THEN /\ st' = NewW
-                  /\ \/ LeaveCasOk(Rec.t) /\ Rec.mo = "relaxed"
-                     \/ NotifyCasOk(Rec.t) /\ Rec.mo = "release"
-                     \/ WaitCasOk(Rec.t) /\ Rec.mo = "relaxed"
+                  /\ \/ LeaveCasOk(Rec.t) /\ MoChk("relaxed")
+                     \/ NotifyCasOk(Rec.t) /\ MoChk("release")
+                     \/ WaitCasOk(Rec.t) /\ MoChk("relaxed")
              ELSE \/ LeaveCasFail(Rec.t) \/ NotifyCasFail(Rec.t) \/ WaitCasFail(Rec.t)
 \* the rmw loop gave up on the value just read (no access): the spec thread has already taken the
 \* corresponding branch (returned, went to the slow path, or started _dispatch_group_wake)
 TGiveUp == /\ Ev("GiveUp") /\ Consume /\ pc[Rec.t] \in {"idle", "w_fcall", "wk_head"} /\ Same
-TLoadG == /\ Ev("LoadG") /\ Consume /\ st.gen = Rec.g /\ Rec.mo = "acquire" /\ WaitGenLoad(Rec.t)
+TLoadG == /\ Ev("LoadG") /\ Consume /\ st.gen = Rec.g /\ MoChk("acquire") /\ WaitGenLoad(Rec.t)
 
 (* ---- the notify list ---- *)
-TXchgT == /\ Ev("XchgT") /\ Consume /\ ntail = Rec.old /\ Rec.mo = "release"
+TXchgT == /\ Ev("XchgT") /\ Consume /\ ntail = Rec.old /\ MoChk("release")
           /\ IF Rec.new # 0 THEN NotifyXchg(Rec.t, Rec.new) ELSE WakeTailXchg(Rec.t)
 TStoreH == /\ Ev("StoreH") /\ Consume
            /\ IF Rec.v # 0 THEN NotifyLink(Rec.t) /\ lv[Rec.t].prev = 0 /\ lv[Rec.t].n = Rec.v
